@@ -14,6 +14,9 @@ for (prop, commit), ds in sorted(seen.items()):
     diff = subprocess.run(f"git -C /repo diff {commit} {commit}^ -- . ':!*_test.go'", shell=True, capture_output=True, text=True).stdout
     if not diff.strip(): print("empty diff", commit); continue
     out = f"{V}/seeded/{prop}-fix-{commit[:7]}"
+    chk = subprocess.run("git -C /repo apply --check -", shell=True, input=diff, capture_output=True, text=True)
+    if chk.returncode != 0:
+        print("skipped (no longer applies to HEAD):", prop, commit); continue
     os.makedirs(out, exist_ok=True)
     open(f"{out}/patch.diff", "w").write(diff)
     json.dump({"property": prop, "summary": "reverse of fix commit %s: re-introduces %s" % (commit, "; ".join(x["what"][:160] for x in ds)),
